@@ -33,6 +33,7 @@ CONFIG = dict(
         dict(prop="C06", quick_cases=200, thorough_cases=20000),
         dict(prop="C09", quick_cases=400, thorough_cases=40000),
         dict(prop="C12", quick_cases=1500, thorough_cases=60000),
+        dict(prop="C15", quick_cases=600, thorough_cases=40000),
     ],
     fails=fails,
     rule="union of the component generators (see the evidence of C14, C20, C16, C05, C11) plus byte strings for the C string formatters (0x7F, 0x1F, 0x80, specials over-represented) and the walker inputs (2 demo DLLs, 11 tiny files, 217 corkami files; 0..6 field-level corruptions aimed at headers, data directories, section headers and directory contents; truncations; file and mapped). A case fails on a hang (CPU budget, confirmed by a 10x solo re-run), a stack exhaustion, or an item count above the analytic bound. Non-trivial: as defined by each component.",
